@@ -123,6 +123,7 @@ class Config:
         self.foreign_methods = {}    # (kind, name) -> stub(interp, recv, args, kwargs)
         self.foreign_attrs = {}      # (kind, name) -> fn(interp, recv)
         self.isinstance_foreign = {}  # live class -> fn(interp, foreign) -> Bool term/bool
+        self.foreign_real_class = {}  # foreign kind -> the real class it stands for (closed member set)
         self.contracts = {}          # qualified name -> contract object
         self.merge_calls = set()     # qualified names whose call outcomes are merged (pure, void)
         self.inline_native = set()   # ids of live callables executed natively on concrete args
@@ -544,6 +545,9 @@ class Interp:
                 return ForeignMethod(obj, name)
             if name in obj.f:
                 return obj.f[name]
+            real = self.cfg.foreign_real_class.get(obj.kind)
+            if real is not None and not hasattr(real, name):
+                return _MISSING
             raise Unsupported("attribute %s of foreign %s" % (name, obj.kind))
         if isinstance(obj, SuperProxy):
             raw, k = self.class_lookup_after(obj.obj.cls if isinstance(obj.obj, HObj) else (obj.obj if isinstance(obj.obj, type) else type(obj.obj)), obj.after_cls, name)
